@@ -42,11 +42,12 @@ class Sim:
         self.preempt_p = preempt_p
         self.opcode_p = opcode_p
         self.trace_prefixes = tuple(trace_prefixes)
-        self.opcode_funcs = set(opcode_funcs)
+        self.opcode_funcs = list(opcode_funcs)
         self.stats = {"handoffs": 0, "clock_jumps": 0, "preemptions": 0, "opcode_preemptions": 0,
                       "timers_fired": 0, "stalls": 0, "threads": 0}
         self.event_no = 0                  # global event sequence number for histories
         self.thread_errors = []
+        self.baton_violations = []
         self._stall = None                 # (thread, steps left)
         self.stall_p = 0.0
         # the driver is thread 0
@@ -86,6 +87,8 @@ class Sim:
         """Called by the current thread at a yield point (its state is already set)."""
         me = self.current
         self._check_alive()
+        if _th.current_thread() is not me.real:
+            self.baton_violations.append((_th.current_thread().name, me.name))
         self.steps += 1
         if self.steps > self.max_steps:
             self.abort("step cap")
@@ -203,12 +206,6 @@ class Sim:
                     if sim.tape.coin(sim.preempt_p):
                         sim.stats["preemptions"] += 1
                         sim.yield_()
-            elif event == "opcode":
-                if sim.opcode_p and _th.current_thread() is sim.current.real \
-                        and not sim.current.no_preempt:
-                    if sim.tape.coin(sim.opcode_p):
-                        sim.stats["opcode_preemptions"] += 1
-                        sim.yield_()
             return local
 
         def glob(frame, event, arg):
@@ -217,8 +214,8 @@ class Sim:
             fn = frame.f_code.co_filename
             if not fn.startswith(prefixes):
                 return None
-            if frame.f_code.co_name in opfuncs and sim.opcode_p:
-                frame.f_trace_opcodes = True
+            if frame.f_code.co_name == "<module>":
+                return None                      # import-time code runs once per process
             return local
         return glob
 
@@ -256,7 +253,7 @@ class SimThread:
         if sim.dead:
             self.state = DONE
             return
-        if sim.preempt_p or sim.opcode_p:
+        if sim.preempt_p:
             sys.settrace(sim.tracer())
         try:
             self.target(*self.args, **self.kwargs)
@@ -402,7 +399,12 @@ class SimPriorityQueue:
         self.sim._check_alive()
         self._put(item)
         if self.on_push:
-            self.on_push(self, item)
+            # harness hooks run atomically with the operation they observe
+            self.sim.current.no_preempt += 1
+            try:
+                self.on_push(self, item)
+            finally:
+                self.sim.current.no_preempt -= 1
         self.sim.yield_()
 
     put_nowait = put
@@ -419,7 +421,11 @@ class SimPriorityQueue:
                 raise _Empty
         item = self._get()
         if self.on_pop:
-            self.on_pop(self, item)
+            sim.current.no_preempt += 1
+            try:
+                self.on_pop(self, item)
+            finally:
+                sim.current.no_preempt -= 1
         return item
 
     def get_nowait(self):
@@ -485,12 +491,54 @@ def install(sim):
     patch(orchestrator, "Queue", SimQueue)
     patch(orchestratedagents, "perf_counter", sim.perf_counter)
     patch(run, "Queue", SimQueue)
-    if sim.preempt_p or sim.opcode_p:
+    if sim.preempt_p:
         sys.settrace(sim.tracer())        # the driver thread
+    if sim.opcode_p and sim.opcode_funcs:
+        _install_instruction_events(sim)
+
+
+_TOOL = 3
+_MON_CODES = []
+
+
+def _install_instruction_events(sim):
+    """Instruction-level pre-emption inside selected functions through sys.monitoring local
+    events (deterministic from the first call, unlike frame.f_trace_opcodes on 3.12)."""
+    mon = sys.monitoring
+    try:
+        mon.use_tool_id(_TOOL, "threadsim")
+    except ValueError:
+        pass
+
+    def on_instruction(code, offset):
+        if sim.dead or sim.current is None:
+            return
+        if _th.current_thread() is not sim.current.real or sim.current.no_preempt:
+            return
+        if sim.tape.coin(sim.opcode_p):
+            sim.stats["opcode_preemptions"] += 1
+            sim.yield_()
+    mon.register_callback(_TOOL, mon.events.INSTRUCTION, on_instruction)
+    for f in sim.opcode_funcs:
+        code = f.__code__
+        mon.set_local_events(_TOOL, code, mon.events.INSTRUCTION)
+        _MON_CODES.append(code)
+
+
+def _uninstall_instruction_events():
+    mon = sys.monitoring
+    while _MON_CODES:
+        mon.set_local_events(_TOOL, _MON_CODES.pop(), 0)
+    try:
+        mon.register_callback(_TOOL, mon.events.INSTRUCTION, None)
+        mon.free_tool_id(_TOOL)
+    except ValueError:
+        pass
 
 
 def uninstall():
     sys.settrace(None)
+    _uninstall_instruction_events()
     while _PATCHES:
         mod, name, val = _PATCHES.pop()
         setattr(mod, name, val)
